@@ -122,7 +122,7 @@ class C01(C.PipelineCheck):
 
     def mutant_scenarios(self, tier, name):
         for j in self.scenarios('quick'):
-            if j[0].startswith('event-name/') or j[0].startswith('cmd-name/3') or j[0].startswith('field-rename/2'):
+            if j[0].startswith('validator-message/2') or j[0].startswith('cmd-name/3') or j[0].startswith('field-rename/2'):
                 yield j
 
     # -- running ---------------------------------------------------------------------------------
@@ -244,10 +244,17 @@ class C01(C.PipelineCheck):
             fd = M.find_fn(prog, 'escape_js_string')
             return fd is not None and M.replace_str_lit(fd, '\\"', '"')
 
-        def pascal_to_snake(prog):
-            fd = M.find_fn(prog, 'NamingContext::event_name_to_function')
-            return fd is not None and M.replace_str_lit(fd, 'on{}', 'on {}')
-        return [('event-fn-name-with-space', pascal_to_snake), ('escape_js_string-no-quote-escape', no_escape)]
+        def no_digit_prefix(prog):
+            fd = M.find_fn(prog, 'to_ts_identifier')
+            return fd is not None and M.drop_method_call_stmt(fd, 'insert')
+
+        def key_always_bare(prog):
+            fd = M.find_fn(prog, 'ts_property_key')
+            return fd is not None and M.replace_str_lit(fd, '"{}"', '{}')
+        return [('identifier-digit-prefix-dropped', no_digit_prefix), ('escape_js_string-no-quote-escape', no_escape),
+                ('property-key-never-quoted', key_always_bare)]
+
+    quick_mutants = 2
 
 
 if __name__ == '__main__':
